@@ -10,7 +10,7 @@ from corr import _httpchan as H
 
 HEADLINE = ("TwistedProps.C21.at_most_one_request_in_flight / responses_in_request_order_not_interleaved / "
             "written_is_concatenation_of_responses / notifyFinish_fires_exactly_once / notifyFinish_result_matches_order")
-RULE = ("1-5 pipelined requests (bodies by Content-Length/chunked, Connection: close, HTTP/1.0, a malformed one; a third of them "
+RULE = ("1-5 pipelined requests (bodies by Content-Length/chunked - 15 % of the histories with a chunked body that carries a trailer section, cut inside it -, Connection: close, HTTP/1.0, a malformed one; a third of them "
         "carrying the header fields the server itself reads - User-Agent, Referer, Cookie, Host, Content-Type, ... - with quotes, "
         "backslashes, Latin-1, UTF-8, control octets, empty values) cut into random deliveries, interleaved with: the application "
         "finishing the request it holds (resources answer at once, in pieces, later, never, or RAISE - an Exception or a BaseException "
